@@ -161,6 +161,21 @@ theorem code_chunk_names_distinct (i j : Int) :
   ⟨chunkName_inj _ i j, chunkName_bases _ _ i j (by decide) (by decide), chunkName_ne_base _ i,
    chunkName_ne_other _ _ i (by decide), chunkName_ne_other _ _ i (by decide), chunkName_ne_base _ i⟩
 
+open Oidc.Generated Oidc.CodeRefine in
+/-- writing the ID token does not change what is read of the refresh token (the sessions being named as `GetSession` names them:
+    the two fixed cookies, refresh chunks under `_oidc_raczylo_r_<i>`): `GetRefreshToken` returns the same before and after
+    `SetAccessToken`, whatever the two tokens' sizes -/
+theorem code_SetAccessToken_keeps_refresh (sd : Go.SessData) (tok : Go.Str) (fuel : Nat)
+    (hwf : sd.accessSession = Code.accessTokenCookie) (hwr : sd.refreshSession = Code.refreshTokenCookie)
+    (hchunks : ∀ i q, (i, q) ∈ sd.refreshTokenChunks → ∃ j, q = Go.chunkName Code.refreshTokenCookie j)
+    (hdec : sd.decompress (sd.compress tok) = tok) (hne : sd.compress tok ≠ [])
+    (hf : (sd.compress tok).length < fuel)
+    (hterm : sd.hasRequest = true → ∃ N : Nat, N < fuel ∧ (∀ j : Nat, j < N → chunkIsNew Code.accessTokenCookie sd j = false) ∧
+        chunkIsNew Code.accessTokenCookie sd N = true) :
+    ∃ sd', Code.SessionData_SetAccessToken fuel sd tok = some sd' ∧
+      Code.SessionData_GetRefreshToken fuel sd' = Code.SessionData_GetRefreshToken fuel sd :=
+  SetAccessToken_keeps_refresh sd tok fuel hwf hwr hchunks hdec hne hf hterm
+
 /-- a state that meets the hypotheses (premises satisfiable): a request without chunk cookies, a codec that prepends one byte -/
 def exampleSD : Go.SessData :=
   ⟨true, [], fun _ => none, 86400, fun t => 'z' :: t, fun t => t.drop 1, ['m'],
